@@ -66,20 +66,22 @@ def build_trees(thorough):
     sub1_opts = [[], ["sub-01_events.json"], ["sub-01_task-Adiscriminationlong_events.json"], ["sub-01_task-B_events.json"],
                  ["sub-01_task-Adiscriminationlong_events.json", "sub-01_task-B_events.json"]]
     sub2_opts = [[], ["sub-02_events.json"]]
-    for ses in (False, True, "datatype"):
+    for ses in (False, True, "datatype", "capital"):
         for run in ((False, True) if thorough else (False,)):
             def ev(sub, task, ses=ses, run=run):
                 # "datatype": the events file lies one directory below the session directory (sub-01/ses-1/eeg/...)
-                d = f"sub-{sub}" + ("/ses-1" if ses else "") + ("/eeg" if ses == "datatype" else "")
+                d = f"sub-{sub}" + ("/ses-1" if ses else "") + ("/eeg" if ses == "datatype" else "/Stimuli" if ses == "capital" else "")
                 n = f"sub-{sub}" + ("_ses-1" if ses else "") + f"_task-{task}" + ("_run-1" if run else "") + "_events.tsv"
                 return d + "/" + n
             # the last one lies in the dataset root itself (no directory component below the root)
             events = [ev("01", "Adiscriminationlong"), ev("01", "B"), ev("02", "Adiscriminationlong"), "task-Adiscriminationlong" + ("_run-1" if run else "") + "_events.tsv"]
             ses_opts = [[]] if not ses else [[], ["sub-01_ses-1_events.json"], ["sub-01_ses-1_task-Adiscriminationlong_events.json"]]
-            for r, s1, s2, se in itertools.product(root_opts, sub1_opts, sub2_opts, ses_opts):
+            # "capital": the events files and the deepest sidecars lie in sub-XX/ses-1/Stimuli - only the exact names
+            # 'stimuli', 'code', ... are left out, a directory differing in letter case takes part like any other
+            for r, s1, s2, se in itertools.product(root_opts if ses != "capital" else root_opts[:2], sub1_opts, sub2_opts, ses_opts):
                 for decoy in ((False, True) if (thorough or (not r and not se)) else (False,)):
                     sidecars = list(r) + ["sub-01/" + x for x in s1] + ["sub-02/" + x for x in s2] + \
-                        ["sub-01/ses-1/" + x for x in se]
+                        [("sub-01/ses-1/Stimuli/" if ses == "capital" else "sub-01/ses-1/") + x for x in se]
                     trees.append({"ses": ses, "run": run, "events": events, "sidecars": sidecars, "decoy": decoy})
     return trees
 
